@@ -14,7 +14,7 @@ Init == l = 1
 
 (* Two further observations of `exec` on a program whose first input/output event is a `say`:                       *)
 (*   "prompt"        standard input is held open and nothing is sent until the first standard-output byte has arrived *)
-(*                   (or 3 s have passed): SayLine makes the line visible when the statement runs, not at exit, so a  *)
+(*                   (or 15 s have passed): SayLine makes the line visible when the statement runs, not at exit, so a  *)
 (*                   later `listen` finds its prompt already delivered (C08: "before the next statement runs")        *)
 (*   "stdout_closed" standard output is a pipe without a reader: the first SayLine fails, which is a runtime error    *)
 (*                   reported on standard error (its wording is the operating system's)                               *)
